@@ -299,16 +299,25 @@ func runProg(em *hlib.Emitter, in input, final int) {
 				if nmerge > 0 {
 					nlate++
 				}
+				told := *o.Dp
+				var m *gostatsd.Metric
 				if o.Lex {
-					if m, snap, ok := lexOne(*o.Dp); ok {
-						pending, pendReg = append(pending, m), o.R
+					if lm, snap, ok := lexOne(*o.Dp); ok {
+						m, told = lm, snap
 						nlexed++
-						ops = append(ops, hlib.App("ORecv", hlib.Nat(o.R), snap.Coq()))
-						continue
 					}
 				}
-				regs[o.R].Receive(o.Dp.Metric())
-				ops = append(ops, hlib.App("ORecv", hlib.Nat(o.R), o.Dp.Coq()))
+				if m == nil {
+					m = o.Dp.Metric() // direct path (also for a line the lexer cannot carry)
+				}
+				if o.Lex {
+					// part of a lexed run: received in line order when the run ends, also when this
+					// datapoint itself took the direct path
+					pending, pendReg = append(pending, m), o.R
+				} else {
+					regs[o.R].Receive(m)
+				}
+				ops = append(ops, hlib.App("ORecv", hlib.Nat(o.R), told.Coq()))
 			case "merge":
 				if !okReg(o.R) || !okReg(o.From) || dead[o.R] || dead[o.From] || o.R == o.From {
 					continue
